@@ -396,6 +396,21 @@ def descent_rules(ck, F, S, intrusive, owning, prefix='C08'):
         picks.append(cands[0])
     comparator_result_rule(ck, F, picks)
     reinsert_rule(ck, F, picks[0], prefix)
+    # the node a link belongs to is obtained by a conversion the compiler checks (static_cast adjusts for the position of the link
+    # base inside the node): a reinterpret_cast between link and node is right only while the link is the first sub-object
+    R_rc = ck.rule(f'{prefix}.no-reinterpreted-links', 'no function of the tree utility reinterprets a pointer between the link base and the '
+                   'node type (or between node types): parent links written through such a pointer point into the middle of a node '
+                   'whose link base is not its first sub-object (a polymorphic node, a second base)', floor=20)
+    for f in sorted(F.fn.values(), key=lambda f: f['id']):
+        if not (f.get('parent') or '').startswith('ipr::util::rb_tree::') or not f.get('body'):
+            continue
+        bad = [f'line {n.get("ln")}: `{(n.get("e") or {}).get("t")}` reinterpreted as `{n.get("t")}`' for n in walk(f['body'])
+               if n.get('k') == 'cast' and n.get('explicit') == 'reinterpret' and 'rb_tree::' in (((n.get('e') or {}).get('t') or '') + (n.get('t') or ''))]
+        bad += [f'line {n.get("ln")}: `{(n.get("e") or {}).get("t")}` reinterpreted as `{n.get("t")}`' for n in walk(f['body'])
+                if n.get('k') == 'cast' and n.get('explicit') == 'reinterpret' and 'rb_tree::' not in (((n.get('e') or {}).get('t') or '') + (n.get('t') or ''))
+                and f['parent'].startswith(('ipr::util::rb_tree::link<', 'ipr::util::rb_tree::core<', 'ipr::util::rb_tree::chain<'))]
+        ck.check(R_rc, contracts.short(contracts.fn_qname(f['id'])) + '/' + str(len(f.get('params', []))), not bad,
+                 f'{f["id"]}: ' + '; '.join(sorted(set(bad))[:2]), loc=f['loc'], fn=f['id'])
     # each flavour twice: as the library instantiates it (comparators returning int), and as the probe unit instantiates it with
     # a comparator whose result is a comparison category (`<=>`) -- a branch of the utility that depends on the result type
     # would otherwise never be seen
